@@ -333,6 +333,12 @@ func TestC13_Migrate(t *testing.T) {
 					(len(got.Results) == 0 && got.LastResult != emptyVoucherStr) || (len(got.Results) > 0 && got.LastResult != got.Results[len(got.Results)-1]) {
 					mfail(t, log, "C19/voucher-views-after-upgrade", "record %d: first %s last %s lastResult %s, logs %v / %v", i, got.Voucher, got.LastVoucher, got.LastResult, got.Vouchers, got.Results)
 				}
+			case "C05":
+				// who initiated a channel, and in which direction, decides which messages are honoured on it
+				if got.ChannelID != want.ChannelID || got.IsPull != want.IsPull || got.Self != want.Self || got.Other != want.Other {
+					mfail(t, log, "C05/channel-roles-changed-by-upgrade", "record %d: chid=%s pull=%v self=%s other=%s after the store upgrade, created as chid=%s pull=%v self=%s other=%s",
+						i, chidStr(got.ChannelID), got.IsPull, got.Self, got.Other, chidStr(want.ChannelID), want.IsPull, want.Self, want.Other)
+				}
 			case "C03":
 				if want.ReqFinal && !got.ReqFinal {
 					mfail(t, log, "C03/finalization-requirement-lost-by-upgrade", "record %d required finalization before the store upgrade and does not after it", i)
@@ -438,6 +444,12 @@ func TestC13_Migrate(t *testing.T) {
 			stats.For("C19").Class("views_after_store_upgrade")
 			if n > 0 {
 				stats.For("C19").Nontrivial(stats.FP("upgrade", fmt.Sprint(statuses), n))
+			}
+		case p == "C05":
+			stats.For("C05").Eval()
+			stats.For("C05").Class("channel_roles_through_store_upgrade")
+			if n > 0 {
+				stats.For("C05").Nontrivial(stats.FP("upgrade", fmt.Sprint(statuses), n))
 			}
 		case p == "C03":
 			stats.For("C03").Eval()
